@@ -5,7 +5,7 @@ import json, os, subprocess, sys
 HERE = os.path.dirname(os.path.dirname(os.path.abspath(__file__)))
 only = sys.argv[1:]
 rows = []
-rpath = os.path.join(HERE, "notes", "seeded_results.json")
+rpath = os.environ.get("SEEDED_RESULTS") or os.path.join(HERE, "notes", "seeded_results.json")   # SEEDED_RESULTS: separate file for parallel partial runs (merge with tools/seeded_merge.py)
 if only and os.path.exists(rpath):          # partial run: keep the other rows
     rows = [r for r in json.load(open(rpath)) if r["name"] not in only]
 for name in sorted(os.listdir(os.path.join(HERE, "seeded"))):
@@ -24,7 +24,10 @@ for name in sorted(os.listdir(os.path.join(HERE, "seeded"))):
                      if caught else "MISSED", raw=out))
     print(name, rows[-1]["verdict"], flush=True)
 rows.sort(key=lambda r: r["name"])
-json.dump(rows, open(os.path.join(HERE, "notes", "seeded_results.json"), "w"), indent=1)
+json.dump(rows, open(rpath, "w"), indent=1)
+if os.environ.get("SEEDED_RESULTS"):
+    print("caught %d / %d" % (sum(r["verdict"] != "MISSED" for r in rows), len(rows)))
+    sys.exit(0)
 with open(os.path.join(HERE, "notes", "seeded_results.md"), "w") as f:
     f.write("| seeded change | property | check(s) run | verdict | what it breaks |\n|---|---|---|---|---|\n")
     for r in rows:
